@@ -227,6 +227,201 @@ def handleSrc (nargs : Option Nat) (exs : List Ex) : String :=
       let impl := renderVal r.2 (some (traceNames r.1))
       impl ++ "\t" ++ specSrc op1 ops (nargs.map fun _ => argToks) ++ "\t-"
 
+/-! ### srcs: chains whose operands have effects on the operators of the same chain
+
+  srcs <nargs|-> <k> (<var> <op>){k} <tok>*
+  operand tokens : E:<i> | S:<i>:<eff> | U      eff = a-<x>-<y>  (x = y: x gets y's current value)
+                                                     p-<x>-<r>  (x::precedence = r, r = n | int)
+                                                     w-<x>-<y>  (swap x, y)
+                                                     q-<x>-<y>  (swap x::precedence, y::precedence)
+  operator tokens: V:<var> (identifier) | W:<var> (backticked logging expression)
+  the last nargs tokens are A:<i> arguments the section is applied to -/
+
+abbrev EnvS := List (String × TOp × Precedence)
+
+inductive Eff where
+  | assign (x y : String)
+  | setp (x : String) (p : Prec)
+  | swapv (x y : String)
+  | swapp (x y : String)
+
+def EnvS.get (env : EnvS) (x : String) : Option (TOp × Precedence) := List.lookup x env
+def EnvS.set (env : EnvS) (x : String) (v : TOp × Precedence) : EnvS :=
+  env.map fun e => if e.1 == x then (x, v) else e
+
+/-- the effect of an assignment statement; an unknown variable raises -/
+def Eff.apply (env : EnvS) : Eff → Option EnvS
+  | .assign x y => match env.get x, env.get y with
+    | some _, some vy => some (env.set x vy)
+    | _, _ => none
+  | .setp x p => match env.get x with
+    | some (f, pr) => some (env.set x (f, ⟨p, pr.a⟩))     -- only the f64 changes, not the Assoc
+    | none => none
+  | .swapv x y => match env.get x, env.get y with
+    | some vx, some vy => some ((env.set x vy).set y vx)
+    | _, _ => none
+  | .swapp x y => match env.get x, env.get y with
+    | some (fx, px), some (fy, py) => some ((env.set x (fx, ⟨py.p, px.a⟩)).set y (fy, ⟨px.p, py.a⟩))
+    | _, _ => none
+
+inductive ExS where
+  | opd (i : Nat) (eff : Option Eff)
+  | und
+  | vopr (x : String)
+  | bopr (k : Nat) (x : String)
+  | arg (i : Nat)
+
+def ExS.name : ExS → String
+  | .opd i _ => s!"e{i}"
+  | .und => "_"
+  | .vopr _ => ""
+  | .bopr k _ => s!"o{k}"
+  | .arg i => s!"e{i}"
+
+def langS : LangS EnvS ExS TOp DVal where
+  evaluate
+    | .opd i none, env => (.ok (leafVal i), env)
+    | .opd i (some eff), env => match eff.apply env with
+      | some env' => (.ok (leafVal i), env')
+      | none => (.throw, env)
+    | .und, env => (.throw, env)
+    | .vopr x, env => match env.get x with
+      | some (f, p) => (.ok (.fn f p), env)
+      | none => (.throw, env)
+    | .bopr _ x, env => match env.get x with
+      | some (f, p) => (.ok (.fn f p), env)
+      | none => (.throw, env)
+    | .arg i, env => (.ok (leafVal i), env)
+  isUnderscore | .und => true | _ => false
+  asFunc | .fn f p => some (f, p) | .sec _ _ => none | .v _ _ => none
+  mkSection := .sec
+  run := runT
+  run2 := fun f a b => runT f [a, b]
+  tryChain := tryChainT
+
+def parsePrecOnly (p : String) : Option Prec :=
+  if p == "n" then some .nan else p.toInt?.map .fin
+
+def parseEff (s : String) : Option Eff :=
+  match s.splitOn "-" with
+  | ["a", x, y] => some (.assign x y)
+  | ["p", x, r] => (parsePrecOnly r).map (.setp x)
+  | ["p", x, "", r] => (parsePrecOnly ("-" ++ r)).map (.setp x)
+  | ["w", x, y] => some (.swapv x y)
+  | ["q", x, y] => some (.swapp x y)
+  | _ => none
+
+def parseExS (pos : Nat) (s : String) : Option ExS :=
+  if s == "U" then some .und
+  else match s.splitOn ":" with
+    | ["E", i] => i.toNat?.map (.opd · none)
+    | ["S", i, e] => match i.toNat?, parseEff e with
+      | some n, some eff => some (.opd n (some eff))
+      | _, _ => none
+    | ["A", i] => i.toNat?.map .arg
+    | ["V", x] => some (.vopr x)
+    | ["W", x] => some (.bopr pos x)
+    | _ => none
+
+def parseExSs : Nat → List String → Option (List ExS)
+  | _, [] => some []
+  | n, s :: rest =>
+    match parseExS n s, parseExSs (n + 1) rest with
+    | some e, some r => some (e :: r)
+    | _, _ => none
+
+def pairUpS : List ExS → Option (List (ExS × ExS))
+  | [] => some []
+  | a :: b :: rest => (pairUpS rest).map ((a, b) :: ·)
+  | _ => none
+
+def parseEnvS : Nat → List String → Option (EnvS × List String)
+  | 0, rest => some ([], rest)
+  | k + 1, x :: o :: rest =>
+    match parseOp o, parseEnvS k rest with
+    | some g, some (env, r) => some ((x, g.fn, g.prec) :: env, r)
+    | _, _ => none
+  | _, _ => none
+
+def traceNamesS (l : List ExS) : List String := (l.map ExS.name).filter (· ≠ "")
+
+/-- Spec for `srcs`: walk the chain left to right threading the environment; the operator of a
+position is what its variable holds THERE; then group the resolved chain by climbing -/
+def specResolve : List (ExS × ExS) → EnvS → Option (List (Op TOp × Option Nat) × EnvS)
+  | [], env => some ([], env)
+  | (oper, opd) :: rest, env =>
+    let x := match oper with | .vopr x => x | .bopr _ x => x | _ => ""
+    match env.get x with
+    | none => none
+    | some (f, p) =>
+      match opd with
+      | .und => (specResolve rest env).map fun r => ((⟨f, p⟩, none) :: r.1, r.2)
+      | .opd i eff =>
+        let env' := match eff with | none => some env | some e => e.apply env
+        match env' with
+        | none => none
+        | some env' => (specResolve rest env').map fun r => ((⟨f, p⟩, some i) :: r.1, r.2)
+      | _ => none
+
+def specSrcS (env : EnvS) (op1 : ExS) (ops : List (ExS × ExS)) (args : Option (List ExS)) : String :=
+  let first : Option (Option Nat × EnvS) := match op1 with
+    | .und => some (none, env)
+    | .opd i eff => (match eff with | none => some env | some e => e.apply env).map fun e => (some i, e)
+    | _ => none
+  match first with
+  | none => "throw"
+  | some (f0, env1) =>
+    match specResolve ops env1 with
+    | none => "throw"
+    | some (res, _) =>
+      let order := ((if langS.isUnderscore op1 then [] else [op1]) ++
+        ops.flatMap (fun p => if langS.isUnderscore p.2 then [p.1] else [p.1, p.2])) ++ args.getD []
+      let holes := (if f0.isNone then 1 else 0) + (res.filter (·.2.isNone)).length
+      let argNats := (args.getD []).map fun e => match e with | .arg i => i | _ => 0
+      if holes > 0 && args.isNone then
+        "ok <func> evals=" ++ joinWith "," (traceNamesS order) ++ " apps="
+      else if holes == 0 && args.isSome then "unsupported"
+      else if argNats.length ≠ holes then "throw"
+      else
+        -- fill the holes left to right
+        let (firstLeaf, restArgs) := match f0 with
+          | some i => (i, argNats)
+          | none => (argNats.headD 0, argNats.drop 1)
+        let filled := (res.foldl (fun (acc : List (Op TOp × Nat) × List Nat) r =>
+          match r.2 with
+          | some i => (acc.1 ++ [(r.1, i)], acc.2)
+          | none => (acc.1 ++ [(r.1, acc.2.headD 0)], acc.2.drop 1)) ([], restArgs)).1
+        let c : ChainOf TOp Nat := ⟨firstLeaf, filled⟩
+        renderVal (semM runT tryChainT leafVal (climbTree tryChainT c)) (some (traceNamesS order))
+
+def evalArgsS : List ExS → SM (EnvS × List ExS) (List DVal)
+  | [] => SM.pure []
+  | a :: rest => SM.bind (langS.traced.evaluate a) fun v =>
+      SM.bind (evalArgsS rest) fun vs => SM.pure (v :: vs)
+
+def handleSrcS (nargs : Option Nat) (env : EnvS) (exs : List ExS) : String :=
+  let n := exs.length - nargs.getD 0
+  let chainToks := exs.take n
+  let argToks := exs.drop n
+  match chainToks with
+  | [] => "bad-op"
+  | op1 :: restToks =>
+    match pairUpS restToks with
+    | none => "bad-op"
+    | some ops =>
+      let m : SM (EnvS × List ExS) DVal :=
+        match nargs with
+        | none => chainArmS langS.traced op1 ops
+        | some _ =>
+          SM.bind (chainArmS langS.traced op1 ops) fun callee =>
+          SM.bind (evalArgsS argToks) fun args =>
+          match callee with
+          | .sec seed sops => SM.lift (runChainSection lang seed sops args)
+          | _ => SM.fail
+      let r := m (env, [])
+      let impl := renderVal r.1 (some (traceNamesS r.2.2))
+      impl ++ "\t" ++ specSrcS env op1 ops (nargs.map fun _ => argToks) ++ "\t-"
+
 /-! ### real builtins -/
 structure ROp where
   name : String      -- what `builtin_name()` answers (merged comparisons: "a,b")
@@ -297,6 +492,20 @@ def handle (args : List String) : String :=
       | some n => handleSrc (some n) exs
       | none => "bad-op"
     | none => "bad-op"
+  | "srcs" :: nargs :: k :: rest =>
+    match k.toNat? with
+    | none => "bad-op"
+    | some kn =>
+      match parseEnvS kn rest with
+      | none => "bad-op"
+      | some (env, toks) =>
+        match parseExSs 0 toks with
+        | none => "bad-op"
+        | some exs =>
+          if nargs == "-" then handleSrcS none env exs else
+          match nargs.toNat? with
+          | some n => handleSrcS (some n) env exs
+          | none => "bad-op"
   | "real" :: first :: rest =>
     match first.toNat?, parseRealPairs lookupReal rest, parseRealPairs lookupSpec rest with
     | some f, some ps, some ss => handleReal f ps ss
